@@ -40,9 +40,16 @@ C12_OPS = {"Alloc", "Slice", "Append", "AppendSample", "SetSample", "Sample", "W
 GUARDED = {"Append", "Convert", "ReadStriped", "WriteStriped"}
 
 
-def attribute(m, prefix_ops):
+def attribute(m, prefix_ops, blind_ops=()):
     """Properties a mismatch speaks about (see DESIGN.md section 4.2)."""
     op, cls = m["op"], m["cls"]
+    if op == "Observe" and blind_ops:
+        # the one observation that ends a blind history (no contents were looked at before): some unobserved call
+        # left a state the specification does not allow - it speaks about every operation of that history
+        props = {"C12"}
+        for o in blind_ops:
+            props |= BASE.get(o, set())
+        return props
     if cls == "alloc":
         return {"C18"}
     if cls == "proj":          # Slice(0, Capacity()) did not return the capacity window
@@ -161,8 +168,9 @@ def finish(ctx, mc, stats, mm, tot, level="model_checking", extra_cov=None, extr
     own, foreign = [], []
     for m in mm:
         pre = trace_prefix(m["file"], m["line"])
-        ops = {json.loads(x)["op"] for x in pre[:-1]}
-        m["props"] = sorted(attribute(m, ops))
+        evs = [json.loads(x) for x in pre[:-1]]
+        ops = {e["op"] for e in evs}
+        m["props"] = sorted(attribute(m, ops, {e["op"] for e in evs if e.get("noobs") == 1 and e["op"] != "Reset"}))
         m["event"] = json.loads(pre[-1])
         (own if ctx.prop in m["props"] else foreign).append((m, pre))
     viol = 0
